@@ -53,3 +53,42 @@ package service
 //@   ensures (addr.Is4() || addr.Is4In6()) ==> zerocopy.MaxPacketSizeForAddr(mtu, addr) == mtu - 28
 //@   ensures !(addr.Is4() || addr.Is4In6()) && mtu <= 65575 ==> zerocopy.MaxPacketSizeForAddr(mtu, addr) == mtu - 48
 //@   ensures !(addr.Is4() || addr.Is4In6()) && mtu > 65575 ==> zerocopy.MaxPacketSizeForAddr(mtu, addr) == mtu - 56
+
+// ---------------------------------------------------------------------------
+// Configuration validation (property C18).
+// ---------------------------------------------------------------------------
+
+//@ pure batchSizeOK(n int) bool = 0 < n && n <= 1024
+
+// Accepted iff every field is within its documented range; 0 selects the documented default; an accepted
+// non-zero field is left as it is.
+//@ func (*UDPPerfConfig).CheckAndApplyDefaults
+//@   requires !isnil(c)
+//@   modifies c.RelayBatchSize, c.ServerRecvBatchSize, c.SendChannelCapacity
+//@   ensures isnil(result) <==> ((old(c.BatchMode) == "" || old(c.BatchMode) == "no" || old(c.BatchMode) == "sendmmsg") && 0 <= old(c.RelayBatchSize) && old(c.RelayBatchSize) <= 1024 && 0 <= old(c.ServerRecvBatchSize) && old(c.ServerRecvBatchSize) <= 1024 && (old(c.SendChannelCapacity) == 0 || old(c.SendChannelCapacity) >= 64))
+//@   ensures isnil(result) ==> batchSizeOK(c.RelayBatchSize) && batchSizeOK(c.ServerRecvBatchSize) && c.SendChannelCapacity >= 64
+//@   ensures isnil(result) ==> c.RelayBatchSize == (old(c.RelayBatchSize) == 0 ? 256 : old(c.RelayBatchSize))
+//@   ensures isnil(result) ==> c.ServerRecvBatchSize == (old(c.ServerRecvBatchSize) == 0 ? 64 : old(c.ServerRecvBatchSize))
+//@   ensures isnil(result) ==> c.SendChannelCapacity == (old(c.SendChannelCapacity) == 0 ? 1024 : old(c.SendChannelCapacity))
+
+// An accepted UDP listener has a NAT timeout no shorter than the server's minimum (the replay window for
+// Shadowsocks 2022) and batch sizes/channel capacity in range; everything else is refused.
+//@ func (*UDPListenerConfig).Configure
+//@   requires !isnil(lnc) && 0 <= minNATTimeout && minNATTimeout <= 300000000000
+//@   modifies lnc.UDPPerfConfig.RelayBatchSize, lnc.UDPPerfConfig.ServerRecvBatchSize, lnc.UDPPerfConfig.SendChannelCapacity
+//@   ensures isnil(result1) ==> result0.natTimeout >= minNATTimeout && result0.natTimeout > 0
+//@   ensures isnil(result1) ==> result0.natTimeout == (old(lnc.NATTimeout) == 0 ? 300000000000 : int64(old(lnc.NATTimeout)))
+//@   ensures isnil(result1) ==> batchSizeOK(result0.relayBatchSize) && batchSizeOK(result0.serverRecvBatchSize) && result0.sendChannelCapacity >= 64
+//@   ensures isnil(result1) ==> (lnc.Network == "udp" || lnc.Network == "udp4" || lnc.Network == "udp6")
+//@   ensures old(lnc.NATTimeout) != 0 && int64(old(lnc.NATTimeout)) < minNATTimeout ==> !isnil(result1)
+
+// A UDP relay is only built for an MTU of at least 1280; the preconditions of the protocol constructors it
+// calls (e.g. the direct server's target-only invariant) are obligations at those call sites.
+//@ func (*ServerConfig).UDPRelay
+//@   requires !isnil(sc)
+//@   ensures isnil(result1) ==> old(sc.MTU) >= 1280
+//@   loop 0 invariant forall j int :: 0 <= j && j <= rangeindex ==> listeners[j].natTimeout >= minNATTimeout && listeners[j].natTimeout > 0 && batchSizeOK(listeners[j].relayBatchSize) && batchSizeOK(listeners[j].serverRecvBatchSize) && listeners[j].sendChannelCapacity >= 64
+//@   callsite NewUDPSessionRelay: forall j int :: 0 <= j && j < len(listeners) ==> listeners[j].natTimeout >= ss2022.ReplayWindowDuration
+//@   callsite NewUDPSessionRelay: forall j int :: 0 <= j && j < len(listeners) ==> batchSizeOK(listeners[j].relayBatchSize) && batchSizeOK(listeners[j].serverRecvBatchSize) && listeners[j].sendChannelCapacity >= 64
+//@   callsite NewUDPNATRelay: forall j int :: 0 <= j && j < len(listeners) ==> batchSizeOK(listeners[j].relayBatchSize) && batchSizeOK(listeners[j].serverRecvBatchSize) && listeners[j].sendChannelCapacity >= 64 && listeners[j].natTimeout > 0
+//@   callsite NewUDPTransparentRelay: forall j int :: 0 <= j && j < len(listeners) ==> batchSizeOK(listeners[j].relayBatchSize) && batchSizeOK(listeners[j].serverRecvBatchSize) && listeners[j].sendChannelCapacity >= 64 && listeners[j].natTimeout > 0
